@@ -26,6 +26,11 @@ type C15Class struct {
 	// Glued: no blank line after the class block — the next annotation block of the file continues the
 	// same comment block (several ---@class declarations back to back)
 	Glued bool `json:"glued,omitempty"`
+	// ExtraMember / ExtraType: in the declaring file a member is assigned through the class's own
+	// variable (Direct) with its own `---@type ExtraType` (the documented extension: such members belong
+	// to the class)
+	ExtraMember string `json:"extraMember,omitempty"`
+	ExtraType   string `json:"extraType,omitempty"`
 }
 
 type C15Alias struct {
@@ -125,6 +130,12 @@ func genC15(t *rapid.T) C15Case {
 		}
 		c.Vars = append(c.Vars, v)
 	}
+	for k := range c.Classes {
+		if c.Classes[k].Direct != "" && !c.Cyclic && rapid.Bool().Draw(t, "extraMember") {
+			c.Classes[k].ExtraMember = fmt.Sprintf("ex%d", k+1)
+			c.Classes[k].ExtraType = c.Classes[rapid.IntRange(0, nc-1).Draw(t, "extraType")].Name
+		}
+	}
 	return c
 }
 
@@ -209,6 +220,10 @@ func (c *C15Case) files(mode string) (Workspace, map[string]Loc, map[string][2]i
 		}
 		if cl.Direct != "" {
 			w(fi, "local "+cl.Direct+" = {}")
+			if cl.ExtraMember != "" {
+				w(fi, "---@type "+cl.ExtraType)
+				w(fi, cl.Direct+"."+cl.ExtraMember+" = nil")
+			}
 			w(fi, "")
 		} else if !cl.Glued {
 			w(fi, "")
@@ -251,6 +266,13 @@ func (c *C15Case) files(mode string) (Workspace, map[string]Loc, map[string][2]i
 			queries[v.Name] = [2]int{lines[0], len(l)}
 			w(0, l)
 		}
+		for k, cl := range c.Classes {
+			if cl.ExtraMember != "" {
+				l := fmt.Sprintf("local zx%d = %s.%s.f", k, cl.Direct, cl.ExtraMember)
+				queries["extra:"+cl.Name] = [2]int{lines[0], len(l)}
+				w(0, l)
+			}
+		}
 	}
 	var ws Workspace
 	for i := 0; i < c.NFiles; i++ {
@@ -281,6 +303,14 @@ func checkC15(c C15Case, env *Env) *Violation {
 		stepOf[v.Name] = len(req.Steps)
 		req.Steps = append(req.Steps, harness.Call("textDocument/completion", harness.J(harness.M{
 			"textDocument": harness.M{"uri": harness.URI("main.lua")}, "position": harness.Pos(q[0], q[1]), "context": harness.M{"triggerKind": 1}})))
+	}
+	for _, cl := range c.Classes {
+		if cl.ExtraMember != "" {
+			q := queries["extra:"+cl.Name]
+			stepOf["extra:"+cl.Name] = len(req.Steps)
+			req.Steps = append(req.Steps, harness.Call("textDocument/completion", harness.J(harness.M{
+				"textDocument": harness.M{"uri": harness.URI("main.lua")}, "position": harness.Pos(q[0], q[1]), "context": harness.M{"triggerKind": 1}})))
+		}
 	}
 	o := env.Exec(req)
 	if o.Crash() {
@@ -330,6 +360,37 @@ func checkC15(c C15Case, env *Env) *Violation {
 		if edges >= 2 || c.Cyclic {
 			nt = true
 		}
+	}
+	for _, cl := range c.Classes {
+		if cl.ExtraMember == "" {
+			continue
+		}
+		want, _ := c.closure(cl.ExtraType)
+		r := harness.ResultOf(o.Resp, stepOf["extra:"+cl.Name])
+		if r == nil || r.Error != "" {
+			return violf("error", "completion failed for the extra member of %s", cl.Name)
+		}
+		var cl2 struct {
+			Items []struct {
+				Label string `json:"label"`
+			} `json:"items"`
+		}
+		json.Unmarshal(r.Result, &cl2)
+		got := map[string]bool{}
+		for _, it := range cl2.Items {
+			if allFields[it.Label] {
+				got[it.Label] = true
+			}
+		}
+		wantSet := map[string]bool{}
+		for f := range want {
+			wantSet[f] = true
+		}
+		if fmt.Sprint(sorted(got)) != fmt.Sprint(sorted(wantSet)) {
+			return violf("extra-member", "%s.%s was assigned in the declaring file under `---@type %s`; member completion on it offers the fields %v, that class declares exactly %v\n%s",
+				cl.Direct, cl.ExtraMember, cl.ExtraType, sorted(got), sorted(wantSet), showWS(&ws))
+		}
+		env.Stats.Class("extra-typed-member")
 	}
 	// session 2: member go-to-definition (separate file text: member names used in the file are echoed by completion)
 	ws2, _, _ := c.files("definition")
